@@ -118,41 +118,43 @@ out of order are not an activity) and its records, laps and sessions carry each 
 `C20_conceal_hides_exact`) — after concealing no lap (session) keeps a start/end position that belongs to an instant
 outside the revealed window, unless it was replaced by the coordinates of the first / last revealed record and that
 record is itself revealed (`noLeakB`, FitModel/ActivitySpec.lean). NO hypothesis on the timestamps of the records.
-FALSE on the pinned tree in two classes: KF-C20-1 (= design finding F17: seconds + raw milliseconds) and KF-C20-4 (the
-two stretches overlap and two records at the boundary carry the same timestamp); a third defect, KF-C20-2, was repaired
-in /repo by commit bd79ab7. Proved outside the two classes: `C20_conceal_lap_session_partial`. -/
+FALSE on the pinned tree in the class of KF-C20-1 (= design finding F17: seconds + raw milliseconds); two other defects
+were repaired in /repo: KF-C20-2 (commit bd79ab7) and KF-C20-4 (the two stretches overlap and two records at the
+boundary carry the same timestamp: a lap kept the coordinates of a concealed record — found when the hypothesis
+"timestamps strictly increase", which an earlier version of this statement carried, was dropped and the generator left
+the one-tick-per-record zone). Proved outside the class of KF-C20-1: `C20_conceal_lap_session_partial`. -/
 def C20_conceal_lap_session_full : Prop :=
   ∀ (ph : PH) (first last : Nat) (ms : List Message), (ph = lapPH ∨ ph = sesPH) → DistOK ms →
     lapsSeqB ph ms = true → recUniqueB ms = true → lapUniqueB ph ms = true →
     noLeakB ph first last ms (conceal first last ms) = true
 
-/-- **No lap or session position points into a concealed stretch, outside the classes of KF-C20-1 and KF-C20-4**
-(`_partial`: the two added hypotheses are the negations of the class predicates of the open findings — the predicates
-`--kf` evaluates. `unitsDisagree ph first ms = false`: on no lap/session does the code's test `start_time +
-total_timer_time < T`, seconds plus raw milliseconds, differ from the test in seconds. `overlapTie first last ms =
-false`: it is not the case that the stretches overlap AND the last record revealed by the end stage carries a timestamp
-not smaller than the first record revealed by the start stage — always so when the records' timestamps strictly
-increase, `C20_overlapTie_false_of_increasing`). For any conceal distances (overlapping stretches, nothing left
-revealed, nothing concealed), any number of laps / sessions and records, any other messages in between, equal or
-decreasing record timestamps anywhere else: the forward and backward scans, the two lap/session passes of each stage and
+/-- **No lap or session position points into a concealed stretch, outside the class of KF-C20-1** (`_partial`: the only
+added hypothesis, `unitsDisagree ph first ms = false`, is the negation of the class predicate of the open finding — the
+predicate `--kf` evaluates: on no lap/session does the code's test `start_time + total_timer_time < T`, seconds plus raw
+milliseconds, differ from the test in seconds). For any conceal distances (overlapping stretches, nothing left revealed,
+nothing concealed), any number of laps / sessions and records, any other messages in between, and ANY record timestamps
+(equal, decreasing): the forward and backward scans, the overlap test, the two lap/session passes of each stage and
 their composition. -/
 theorem C20_conceal_lap_session_partial (ph : PH) (first last : Nat) (ms : List Message) (hph : ph = lapPH ∨ ph = sesPH)
     (hd : DistOK ms) (hseq : lapsSeqB ph ms = true) (hur : recUniqueB ms = true)
-    (hul : lapUniqueB ph ms = true) (hkf : unitsDisagree ph first ms = false) (hkf4 : overlapTie first last ms = false) :
+    (hul : lapUniqueB ph ms = true) (hkf : unitsDisagree ph first ms = false) :
     noLeakB ph first last ms (conceal first last ms) = true :=
-  conceal_noLeak hph first last ms hd hkf4 hseq hur hul hkf
+  conceal_noLeak hph first last ms hd hseq hur hul hkf
 
 /-- strictly increasing record timestamps (an activity recorded forward in time, at most one record per second) exclude
-the class of KF-C20-4 -/
+the class of the former finding KF-C20-4 (`overlapTie`) — why the first version of the statement, which assumed them,
+could not see it -/
 theorem C20_overlapTie_false_of_increasing (first last : Nat) (ms : List Message) (hd : DistOK ms)
     (ht : recTimesIncB ms = true) : overlapTie first last ms = false :=
   overlapTie_false_of_inc first last ms hd ht
 
-/-- KF-C20-4, the witness: four records 1 m apart, the two in the middle written in the same second (t = 110); lap 1 =
-[100 s, 110 s] after the first two records, lap 2 = [110 s, 120 s] at the end; total_timer_time in milliseconds. Conceal
-the first 1.5 m and the last 1.5 m: the stretches overlap, EVERY record loses its position — yet lap 1 comes out with
-a start position, the coordinates of record 3 (which the end stage conceals), and with its end position. Every
-hypothesis of the full statement holds (and `unitsDisagree` is false: this is not KF-C20-1). -/
+/-- KF-C20-4 (fixed in /repo), the witness: four records 1 m apart, the two in the middle written in the same second
+(t = 110); lap 1 = [100 s, 110 s] after the first two records, lap 2 = [110 s, 120 s] at the end; total_timer_time in
+milliseconds. Conceal the first 1.5 m and the last 1.5 m: the stretches overlap, EVERY record loses its position —
+before the fix lap 1 came out with a start position, the coordinates of record 3 (which the end stage conceals), and
+with its end position (`updateStartPosition` rewrites the first lap reaching T, `updateEndPosition` handled the LAST
+lap starting at or before T — with a tie these are different laps). Every hypothesis of the full statement holds
+(and `unitsDisagree` is false: this was not KF-C20-1). -/
 def tieWitness : List Message :=
   let lap (a b sl el : Nat) : Message :=
     { num := mnLap, devFields := [], fields := [
@@ -165,12 +167,14 @@ def tieWitness : List Message :=
   [mkRec 100 1000 2000 0, mkRec 110 1001 2001 100, lap 100 110 1000 1001, mkRec 110 1002 2002 200, mkRec 120 1003 2003 300,
    lap 110 120 1002 1003]
 
-theorem C20_conceal_lap_session_tie_witness :
+theorem C20_conceal_lap_session_tie_witness_fixed :
     distOKB tieWitness = true ∧ lapsSeqB lapPH tieWitness = true ∧ recUniqueB tieWitness = true ∧
     lapUniqueB lapPH tieWitness = true ∧ unitsDisagree lapPH 150 tieWitness = false ∧
     overlapTie 150 150 tieWitness = true ∧ recTimesIncB tieWitness = false ∧
     ((conceal 150 150 tieWitness).filter isRecord).all posFree = true ∧
-    noLeakB lapPH 150 150 tieWitness (conceal 150 150 tieWitness) = false := by decide +kernel
+    noLeakB lapPH 150 150 tieWitness (conceal 150 150 tieWitness) = true ∧
+    ((conceal 150 150 tieWitness).filter (·.num == mnLap)).all (fun m => (posNums mnLap).all fun n => (fsn n m).isEmpty) = true := by
+  decide +kernel
 
 /-- the design witness of F17: 10 records 100 m and 10 s apart, lap 1 = the first 3 records, lap 2 = the other 7,
 total_timer_time in milliseconds as real files carry it -/
@@ -194,22 +198,22 @@ theorem C20_conceal_lap_session_F17_witness :
     distOKB f17Witness = true ∧ recTimesIncB f17Witness = true ∧ lapsSeqB lapPH f17Witness = true ∧
     recUniqueB f17Witness = true ∧ lapUniqueB lapPH f17Witness = true ∧
     noLeakB lapPH 50000 0 f17Witness (conceal 50000 0 f17Witness) = false ∧
-    unitsDisagree lapPH 50000 f17Witness = true ∧ overlapTie 50000 0 f17Witness = false := by decide +kernel
+    unitsDisagree lapPH 50000 f17Witness = true := by decide +kernel
 
 /-- non-vacuity of `C20_conceal_lap_session_partial`: the same activity with the first 200 m and the last 300 m
 concealed meets every hypothesis (lap 1 reaches the first revealed record, so the two tests agree), and positions
 are rewritten: lap 1 starts at record 3's position, lap 2 ends at record 7's -/
 example : distOKB f17Witness = true ∧ lapsSeqB lapPH f17Witness = true ∧
     recUniqueB f17Witness = true ∧ lapUniqueB lapPH f17Witness = true ∧ unitsDisagree lapPH 20000 f17Witness = false ∧
-    overlapTie 20000 30000 f17Witness = false ∧ conceal 20000 30000 f17Witness ≠ f17Witness := by decide +kernel
+    conceal 20000 30000 f17Witness ≠ f17Witness := by decide +kernel
 
-/-- non-vacuity beyond strictly increasing timestamps: the tie witness with NON-overlapping stretches (first 0.5 m, last
-0.5 m) meets every hypothesis of `C20_conceal_lap_session_partial` although two records share a timestamp -/
+/-- non-vacuity beyond strictly increasing timestamps: the tie witness (two records share a timestamp) meets every
+hypothesis of `C20_conceal_lap_session_partial`, with non-overlapping and with overlapping stretches -/
 example : distOKB tieWitness = true ∧ lapsSeqB lapPH tieWitness = true ∧ recUniqueB tieWitness = true ∧
-    lapUniqueB lapPH tieWitness = true ∧ unitsDisagree lapPH 50 tieWitness = false ∧ overlapTie 50 50 tieWitness = false ∧
+    lapUniqueB lapPH tieWitness = true ∧ unitsDisagree lapPH 50 tieWitness = false ∧ unitsDisagree lapPH 150 tieWitness = false ∧
     recTimesIncB tieWitness = false ∧ conceal 50 50 tieWitness ≠ tieWitness := by decide +kernel
 
-/-- the class of KF-C20-4 with DEcreasing timestamps: two records with decreasing timestamps (distances increasing), first 500 m and
+/-- the class of the former KF-C20-4 with DEcreasing timestamps (now conforming): two records with decreasing timestamps (distances increasing), first 500 m and
 last 600 m concealed — the first revealed record of the start stage (record 2) is concealed by the end stage, and lap
 1, rewritten by the start stage with its coordinates, is not reached by the end stage, which goes by time -/
 example :
@@ -221,7 +225,7 @@ example :
           { base := some { num := fnLapTotalTimerTime, baseType := btUint32 }, value := .uint32 ((b - a) * 1000) }] }
     let ms := [r 100 1 0, r 50 2 100000, lap 40 60, lap 70 80]
     distOKB ms = true ∧ recTimesIncB ms = false ∧ lapsSeqB lapPH ms = true ∧ unitsDisagree lapPH 50000 ms = false ∧
-      overlapTie 50000 60000 ms = true ∧ noLeakB lapPH 50000 60000 ms (conceal 50000 60000 ms) = false := by decide +kernel
+      overlapTie 50000 60000 ms = true ∧ noLeakB lapPH 50000 60000 ms (conceal 50000 60000 ms) = true := by decide +kernel
 
 /-- KF-C20-2 (fixed by /repo commit bd79ab7): concealing the last 2000 m of the same 900 m activity conceals every
 record; lap 1 used to keep all its positions — with the fixed `updateEndPosition` the statement holds on the witness -/
